@@ -17,6 +17,7 @@ from cryptodatahub.common.types import Base64Data, convert_base64_data, convert_
 from cryptoparser.common.base import Serializable
 from cryptoparser.common.exception import InvalidType, NotEnoughData
 from cryptoparser.common.parse import ParserText, ParsableBase, ParsableBaseNoABC, ComposerText
+from cryptoparser.common.utils import convert_naive_datetime_to_utc
 
 
 class FieldParsableBase(ParsableBase):
@@ -408,7 +409,10 @@ class FieldValueComponentQuotedString(FieldValueComponentKeyValueBase):
 
 @attr.s
 class FieldValueComponentDateTime(FieldValueComponentKeyValueBase):
-    value = attr.ib(validator=attr.validators.instance_of(datetime.datetime))
+    value = attr.ib(
+        converter=convert_naive_datetime_to_utc,
+        validator=attr.validators.instance_of(datetime.datetime)
+    )
 
     @classmethod
     @abc.abstractmethod
